@@ -500,10 +500,67 @@ impl DbInner {
 		}))
 	}
 
+	// Checks that `change` is a valid operation for column `col`. Has no side effects.
+	fn validate_change(&self, col: ColId, change: &Operation<Vec<u8>, Vec<u8>>) -> Result<()> {
+		let options = &self.options.columns[col as usize];
+		if options.multitree && !options.btree_index {
+			match change {
+				Operation::InsertTree(_, node) => HashColumn::check_tree_fanout(node),
+				Operation::ReferenceTree(..) =>
+					if options.append_only || options.ref_counted {
+						Ok(())
+					} else {
+						Err(Error::InvalidInput(format!("No Rc for column {col}")))
+					},
+				Operation::DereferenceTree(key) =>
+					if options.append_only {
+						Err(Error::InvalidConfiguration(
+							"Attempting to dereference a tree from an append_only column.".to_string(),
+						))
+					} else if self.get(col, key, false)?.is_none() {
+						Err(Error::InvalidConfiguration("No entry for tree root".to_string()))
+					} else {
+						Ok(())
+					},
+				Operation::Set(..) | Operation::Reference(..) | Operation::Dereference(..) =>
+					Err(Error::InvalidConfiguration(
+						"Invalid operation for multitree column".to_string(),
+					)),
+			}
+		} else {
+			match change {
+				Operation::Set(..) | Operation::Dereference(..) => Ok(()),
+				Operation::Reference(..) =>
+					if options.ref_counted {
+						Ok(())
+					} else {
+						Err(Error::InvalidInput(format!("No Rc for column {col}")))
+					},
+				Operation::InsertTree(..) |
+				Operation::ReferenceTree(..) |
+				Operation::DereferenceTree(..) =>
+					Err(Error::InvalidInput(format!("Invalid operation for column {col}"))),
+			}
+		}
+	}
+
 	fn commit_changes<I>(&self, tx: I) -> Result<()>
 	where
 		I: IntoIterator<Item = (ColId, Operation<Vec<u8>, Vec<u8>>)>,
 	{
+		// Validate every operation before anything is claimed or published, so that a
+		// rejected transaction leaves no trace.
+		let tx: Vec<(ColId, Operation<Vec<u8>, Vec<u8>>)> = tx.into_iter().collect();
+		{
+			let bg_err = self.bg_err.lock();
+			if let Some(err) = &*bg_err {
+				return Err(Error::Background(err.clone()))
+			}
+		}
+		for (col, change) in &tx {
+			self.validate_change(*col, change)?;
+		}
+
 		let mut commit: CommitChangeSet = Default::default();
 		for (col, change) in tx.into_iter() {
 			if self.options.columns[col as usize].btree_index {
